@@ -72,24 +72,28 @@ Qed.
 
 (* reading back the emitted packet *)
 Lemma udp_parse_bytes tx rx r payload : udp_cksum_link -> udp_wf r payload = true ->
+  (rx = true -> tx = true \/ is_v4 = true) ->
   udp_parse sum_ok is_v4 rx (udp_bytes tx r payload) = Ok r /\
   udp_payload (udp_bytes tx r payload) = Ok payload.
 Proof.
-  intros (Hrange & Hlink) Hwf.
+  intros (Hrange & Hlink) Hwf Hmode.
   assert (Hok : udp_ck tx r payload <> 0 -> sum_ok (udp_bytes tx r payload) = true).
   { destruct tx; [intros _; apply Hlink; assumption | unfold udp_ck; congruence]. }
-  clear Hlink.
+  assert (Hz : rx = true -> udp_ck tx r payload = 0 -> is_v4 = true).
+  { intros Hrx H0. destruct (Hmode Hrx) as [-> | ?]; [|assumption]. exfalso. revert H0. unfold udp_ck.
+    cbv zeta. specialize (Hrange (udp_hdr r payload 0 ++ payload)). case_if; lia. }
+  clear Hlink Hmode.
   pose proof (udp_ck_range tx r payload Hrange) as Hck.
   unfold udp_wf in Hwf. bsplit. unfold udp_HEADER_LEN in *. zfold_in H0.
   pose proof (blen_nonneg payload) as Hp.
   destruct r as [sp dp]; cbn [udp_sport udp_dport] in *.
-  revert Hok Hck. unfold udp_bytes, udp_hdr, udp_HEADER_LEN; cbn [udp_sport udp_dport]. zfold.
+  revert Hok Hck Hz. unfold udp_bytes, udp_hdr, udp_HEADER_LEN; cbn [udp_sport udp_dport]. zfold.
   generalize (udp_ck tx {| udp_sport := sp; udp_dport := dp |} payload). intros ck.
   remember (8 + blen payload) as L eqn:HL.
   unfold be_enc2. cbn [app].
   match goal with |- context [?a :: ?b :: ?c :: ?d :: ?e :: ?f :: ?g :: ?h :: payload] =>
     change (a :: b :: c :: d :: e :: f :: g :: h :: payload) with ([a; b; c; d; e; f; g; h] ++ payload) end.
-  intros Hok Hck.
+  intros Hok Hck Hz.
   split.
   - unfold udp_parse, udp_check_len, udp_len, udp_dst_port, udp_src_port, udp_verify_checksum,
       udp_checksum, udp_len, wb_get_u16, udp_HEADER_LEN. zfold.
@@ -98,7 +102,8 @@ Proof.
     rewrite (be_dec_cells2 L), (be_dec_cells2 dp), (be_dec_cells2 sp), (be_dec_cells2 ck) by lia.
     rewrite <- HL. zbool. cbn [wb_guard obind].
     destruct rx; [|reflexivity].
-    destruct (ck =? 0) eqn:Eck; cbn [obind]; [reflexivity|].
+    destruct (ck =? 0) eqn:Eck; cbn [obind].
+    { bsplit. rewrite (Hz eq_refl Eck). reflexivity. }
     rewrite wb_upto_app_all by (autorewrite with blen; zfold; lia). cbn [obind].
     bsplit. rewrite (Hok Eck). reflexivity.
   - unfold udp_payload, udp_len, wb_get_u16. zfold.
@@ -107,11 +112,12 @@ Proof.
 Qed.
 
 Lemma udp_roundtrip tx rx r payload b : udp_cksum_link -> udp_wf r payload = true ->
+  (rx = true -> tx = true \/ is_v4 = true) ->
   blen b = udp_buffer_len r payload ->
   exists bs, udp_emit sum_fill tx r payload b = Ok bs /\ blen bs = udp_buffer_len r payload /\
              udp_parse sum_ok is_v4 rx bs = Ok r /\ udp_payload bs = Ok payload.
 Proof.
-  intros Hl Hwf Hb. exists (udp_bytes tx r payload).
+  intros Hl Hwf Hmode Hb. exists (udp_bytes tx r payload).
   split; [apply udp_emit_spec; assumption|]. split; [apply udp_bytes_len|].
   apply udp_parse_bytes; assumption.
 Qed.
@@ -143,7 +149,7 @@ Qed.
 
 Lemma udp_accessors_safe bs : bytes_ok bs = true -> udp_check_len bs = Ok tt ->
   udp_src_port bs <> Panic /\ udp_dst_port bs <> Panic /\ udp_len bs <> Panic /\
-  udp_checksum bs <> Panic /\ udp_payload bs <> Panic /\ udp_verify_checksum sum_ok bs <> Panic.
+  udp_checksum bs <> Panic /\ udp_payload bs <> Panic /\ udp_verify_checksum sum_ok is_v4 bs <> Panic.
 Proof.
   intros Hb H. destruct (udp_check_len_inv bs Hb H) as (l & Hl & Hr & _).
   assert (G : forall f, 0 <= fst f -> fst f + 2 <= snd f -> snd f <= 8 -> wb_get_u16 bs f <> Panic).
@@ -180,7 +186,7 @@ Proof.
   destruct (negb (dp =? 0)) eqn:Ndp; cbn [wb_guard obind] in H; [|discriminate].
   assert (H' : Ok (mkUdp sp dp) = Ok r).
   { destruct rx; cbn [obind] in H; [|exact H].
-    destruct (udp_verify_checksum sum_ok bs) as [[]| |]; cbn [obind] in H; try discriminate; [exact H|].
+    destruct (udp_verify_checksum sum_ok is_v4 bs) as [[]| |]; cbn [obind] in H; try discriminate; [exact H|].
     destruct (udp_checksum bs); cbn [obind] in H; try discriminate.
     case_if_in H; cbn [obind] in H; [exact H | discriminate]. }
   injection H' as <-.
@@ -192,14 +198,15 @@ Proof.
 Qed.
 
 Lemma udp_reparse tx rx bs r p : udp_cksum_link -> bytes_ok bs = true ->
+  (rx = true -> tx = true \/ is_v4 = true) ->
   udp_parse sum_ok is_v4 rx bs = Ok r -> udp_payload bs = Ok p ->
   udp_wf r p = true /\
   forall b, blen b = udp_buffer_len r p ->
     exists bs', udp_emit sum_fill tx r p b = Ok bs' /\
                 udp_parse sum_ok is_v4 rx bs' = Ok r /\ udp_payload bs' = Ok p.
 Proof.
-  intros Hl Hb H Hp. pose proof (udp_parse_wf _ _ _ _ Hb H Hp) as Hwf. split; [assumption|].
-  intros b Hlen. destruct (udp_roundtrip tx rx r p b Hl Hwf Hlen) as (bs' & He & _ & Hpr & Hpl). eauto.
+  intros Hl Hb Hmode H Hp. pose proof (udp_parse_wf _ _ _ _ Hb H Hp) as Hwf. split; [assumption|].
+  intros b Hlen. destruct (udp_roundtrip tx rx r p b Hl Hwf Hmode Hlen) as (bs' & He & _ & Hpr & Hpl). eauto.
 Qed.
 
 End Checksum.
